@@ -92,6 +92,17 @@ func init() {
 					a, b = gen.DeepChainPair(c.R, prof, true)
 					c.Feature("deep_chain_pairs")
 				}
+				if i%10 == 7 {
+					// numbers that differ in the last bits only
+					near := [][2]float64{{0.30000000000000004, 0.3}, {1.0000000000000002, 1}, {4503599627370497, 4503599627370498}, {9007199254740991, 9007199254740990}, {1e-300, 2e-300}, {123456789.12345678, 123456789.12345679}}
+					n := gen.Pick(c.R, near)
+					a = map[string]any{"k": n[0], "arr": []any{1.0, n[0]}, "o": map[string]any{"n": n[0]}}
+					b = map[string]any{"k": n[1], "arr": []any{1.0, n[1]}, "o": map[string]any{"n": n[1]}}
+					if c.R.Chance(0.5) {
+						b.(map[string]any)["k"] = n[0]
+					}
+					c.Feature("ulp_neighbours")
+				}
 				c11Case(c, ref.ToJSON(a), ref.ToJSON(b), o)
 			},
 		})
